@@ -206,10 +206,17 @@ def run_shards(report, fn, shard_args, nproc=None, fresh_process=False, shard_ti
             except multiprocessing.TimeoutError:
                 pool.terminate()
                 raise HarnessError(f"shards did not finish within {shard_timeout}s")
+    errors = []
     for r in results:
         if "harness_error" in r:
-            raise HarnessError(r["harness_error"])
+            errors.append(r["harness_error"])
+            continue
         report.merge(r)
+    if errors:
+        # a broken shard never hides what the other shards found: violations are still reported (exit 1);
+        # without violations the run is a harness error (exit 2), never a pass
+        report.harness_errors = getattr(report, "harness_errors", []) + errors
+        report.exhaustive = False
 
 
 # -- known findings, replays, evidence -----------------------------------------------------------
@@ -269,6 +276,7 @@ def finish(report, tier, seed, level, rule, started, assumptions, extra=None, le
         "caps_hit": report.caps,
         "notes": report.notes,
         "known_findings_seen": [v.signature for v in seen_known],
+        "harness_errors": len(getattr(report, "harness_errors", [])),
         "violation_signatures": [v.signature for v in new],
     }
     if level_keys:
@@ -287,7 +295,11 @@ def finish(report, tier, seed, level, rule, started, assumptions, extra=None, le
 
     for ln in lines:
         print(ln)
+    herrs = getattr(report, "harness_errors", [])
+    for h in herrs[:5]:
+        print("HARNESS-ERROR: " + h.strip().splitlines()[0][:400], file=sys.stderr)
+        print("  " + h.strip().splitlines()[-1][:400], file=sys.stderr)
     print(f"[{prop}] tier={tier} seed={seed} evaluations={report.evaluations} "
           f"distinct={report.distinct} exhaustive={report.exhaustive} "
-          f"violations={len(new)} known={len(seen_known)} wall={evidence['wall_s']}s")
-    return 1 if new else 0
+          f"violations={len(new)} known={len(seen_known)} harness_errors={len(herrs)} wall={evidence['wall_s']}s")
+    return 1 if new else (2 if herrs else 0)
